@@ -35,11 +35,18 @@ def tdAttrs : TypeDef → Attrs
 def specApps (o : Opts) (url : Option Text) : List DirApp :=
   if o.specifiedBy then (match url with | some u => [⟨kwT "specifiedBy", [(kwT "url", .str u)]⟩] | none => []) else []
 
-/-- the directive applications of a type definition of a plain export, in the order written -/
+/-- the directive applications of a type definition, in the order written (an object type has
+    its custom directives before the federation attributes) -/
 def typeApps (o : Opts) : TypeDef → List DirApp
-  | .scalar _ a url => specApps o url ++ a.dirs
-  | .input _ a oneof _ => (if oneof then [⟨kwT "oneOf", []⟩] else []) ++ a.dirs
-  | t => (tdAttrs t).dirs
+  | .scalar _ a url => specApps o url ++ (fedApps o a ++ a.dirs)
+  | .object _ a _ _ _ => a.dirs ++ fedApps o a
+  | .input _ a oneof _ => (if oneof then [⟨kwT "oneOf", []⟩] else []) ++ (fedApps o a ++ a.dirs)
+  | t => fedApps o (tdAttrs t) ++ (tdAttrs t).dirs
+
+/-- a federation export writes an `extends` object / interface as an extension -/
+def isExt (o : Opts) : TypeDef → Bool
+  | .object _ _ ext _ _ | .interface _ _ ext _ _ => o.federation && ext
+  | _ => false
 
 /-- the definition after its description -/
 def defCore (o : Opts) (t : TypeDef) : List Tok :=
@@ -53,16 +60,39 @@ def defCore (o : Opts) (t : TypeDef) : List Tok :=
       .punct '{' :: fieldsToks o (sorted o.sortedFields (·.name) fs) ++ [.punct '}']
   | .union n _ ms => .name (kw "union") :: .name n :: dirsToks (typeApps o t) ++ .punct '=' :: sepToks '|' ms
   | .enum n _ vs =>
-    .name (kw "enum") :: .name n :: dirsToks (typeApps o t) ++ .punct '{' :: enumToks (sorted o.sortedEnum (·.1) vs) ++ [.punct '}']
+    .name (kw "enum") :: .name n :: dirsToks (typeApps o t) ++ .punct '{' :: enumToks o (sorted o.sortedEnum (·.1) vs) ++ [.punct '}']
   | .input n _ _ fs =>
-    .name (kw "input") :: .name n :: dirsToks (typeApps o t) ++ .punct '{' :: ivsToks (sorted o.sortedFields (·.name) fs) ++ [.punct '}']
+    .name (kw "input") :: .name n :: dirsToks (typeApps o t) ++ .punct '{' :: ivsToks o (sorted o.sortedFields (·.name) fs) ++ [.punct '}']
 
-def isSystemScalar : TypeDef → Bool
-  | .scalar n _ _ => systemScalars.contains n
+/-- scalars the exporter never defines: the built-in ones, and `Any` in a federation export -/
+def isSystemScalar (o : Opts) : TypeDef → Bool
+  | .scalar n _ _ => systemScalars.contains n || (o.federation && federationScalars.contains n)
   | _ => false
 
 def defToks (o : Opts) (t : TypeDef) : List Tok :=
-  if isSystemScalar t then [] else descToks (tdAttrs t).desc ++ defCore o t
+  if isSystemScalar o t then []
+  else if isExt o t then .name (kw "extend") :: defCore o t
+  else descToks (tdAttrs t).desc ++ defCore o t
+
+/-- the fields the exported text denotes -/
+def xFields (o : Opts) (fs : List FieldDef) : List SField := (sorted o.sortedFields (·.name) fs).map (xField o)
+
+/-- the definition the exported text of a type denotes: `dType` with the directive applications of
+    fields and object types in the exporter's order (`none`: nothing is written) -/
+def xType (o : Opts) (t : TypeDef) : Option SDef :=
+  match t with
+  | .scalar n a _ =>
+    if isSystemScalar o t then none else some (.type false n a.desc ((typeApps o t).map dDir) .scalar)
+  | .object n a ext is fs =>
+    some (.type (o.federation && ext) n (if o.federation && ext then none else a.desc) ((typeApps o t).map dDir) (.object is (xFields o fs)))
+  | .interface n a ext is fs =>
+    some (.type (o.federation && ext) n (if o.federation && ext then none else a.desc) ((typeApps o t).map dDir) (.interface is (xFields o fs)))
+  | .union n a ms => some (.type false n a.desc ((typeApps o t).map dDir) (.union ms))
+  | .enum n a vs =>
+    some (.type false n a.desc ((typeApps o t).map dDir)
+      (.enum ((sorted o.sortedEnum (·.1) vs).map (fun v => ⟨v.1, v.2.desc, dDirs o v.2⟩))))
+  | .input n a _ fs =>
+    some (.type false n a.desc ((typeApps o t).map dDir) (.input ((sorted o.sortedFields (·.name) fs).map (dIv o))))
 
 /-- what follows a definition: the end of the document, or the description / keyword of the next -/
 inductive DefEnd : List Tok → Prop
@@ -108,84 +138,90 @@ theorem dirsToks_punct_noAmp (ds : List DirApp) (c : Char) (hc : c ≠ '&') (r :
   | nil => intro r' e; cases e; exact hc rfl
   | cons d ds => intro r' e; simp [dirsToks, dirToks] at e
 
-theorem pDef_scalar (dsc : Option Text) (n : Text) (ds : List DirApp) (hds : ∀ d ∈ ds, dirWf d = true) (rest : List Tok)
-    (hr : DefEnd rest) :
-    pDef (descToks dsc ++ (.name (kw "scalar") :: .name n :: (dirsToks ds ++ rest))) =
-      some (.type false n dsc (ds.map dDir) .scalar, rest) := by
-  have hd := constDirs_toks ds hds rest hr.dirEnd
-  have e1 : kw "scalar" ≠ kw "extend" := by decide
-  have e2 : kw "scalar" ≠ kw "schema" := by decide
-  have e3 : kw "scalar" ≠ kw "directive" := by decide
-  simp only [pDef, pDesc_descToks, e1, e2, e3, if_false, pTypeDef, if_true, hd, Option.map_some]
+/-- an ordinary definition: optional description, then the definition itself -/
+theorem pDef_plain (dsc : Option Text) (k : Text) (r : List Tok) (h1 : k ≠ kw "extend") (h2 : k ≠ kw "schema")
+    (h3 : k ≠ kw "directive") : pDef (descToks dsc ++ .name k :: r) = pTypeDef false dsc (.name k :: r) := by
+  simp only [pDef, pDesc_descToks, h1, h2, h3, if_false]
 
-theorem pDef_object (o : Opts) (ho : o.federation = false) (dsc : Option Text) (isObj : Bool) (n : Text) (impls : List Text)
+/-- a type extension: `extend`, then the definition (no description) -/
+theorem pDef_extend (k : Text) (r : List Tok) (h2 : k ≠ kw "schema") :
+    pDef (.name (kw "extend") :: .name k :: r) = pTypeDef true none (.name k :: r) := by
+  simp [pDef, pDesc, h2]
+
+theorem pTypeDef_scalar (ext : Bool) (dsc : Option Text) (n : Text) (ds : List DirApp) (hds : ∀ d ∈ ds, dirWf d = true) (rest : List Tok)
+    (hr : DefEnd rest) :
+    pTypeDef ext dsc (.name (kw "scalar") :: .name n :: (dirsToks ds ++ rest)) =
+      some (.type ext n dsc (ds.map dDir) .scalar, rest) := by
+  have hd := constDirs_toks ds hds rest hr.dirEnd
+  simp only [pTypeDef, if_true, hd, Option.map_some]
+
+theorem pTypeDef_object (o : Opts) (ext : Bool) (dsc : Option Text) (isObj : Bool) (n : Text) (impls : List Text)
     (ds : List DirApp) (hds : ∀ d ∈ ds, dirWf d = true)
     (fs : List FieldDef) (hfs : fs ≠ []) (hsk : ∀ f ∈ fs, SkelField f) (rest : List Tok) :
-    pDef (descToks dsc ++ (.name (kw (if isObj then "type" else "interface")) :: .name n :: implToks impls ++ dirsToks ds ++
-        .punct '{' :: fieldsToks o (sorted o.sortedFields (·.name) fs) ++ [.punct '}'] ++ rest)) =
-      some (.type false n dsc (ds.map dDir) (if isObj then .object impls (dFields o fs) else .interface impls (dFields o fs)), rest) := by
+    pTypeDef ext dsc (.name (kw (if isObj then "type" else "interface")) :: .name n :: implToks impls ++ dirsToks ds ++
+        .punct '{' :: fieldsToks o (sorted o.sortedFields (·.name) fs) ++ [.punct '}'] ++ rest) =
+      some (.type ext n dsc (ds.map dDir) (if isObj then .object impls (xFields o fs) else .interface impls (xFields o fs)), rest) := by
   have himpl := pImplements_toks impls (dirsToks ds ++ .punct '{' :: (fieldsToks o (sorted o.sortedFields (·.name) fs) ++ .punct '}' :: rest))
     (dirsToks_punct_noName _ _ _) (dirsToks_punct_noAmp _ _ (by decide) _)
   have hd := constDirs_toks ds hds (.punct '{' :: (fieldsToks o (sorted o.sortedFields (·.name) fs) ++ .punct '}' :: rest))
     (dirEnd_punct _ _ (by decide) (by decide))
-  have hfl := pFields_toks o ho (sorted o.sortedFields (·.name) fs) (sorted_ne_nil _ _ _ hfs)
+  have hfl := pFields_toks o (sorted o.sortedFields (·.name) fs) (sorted_ne_nil _ _ _ hfs)
     (fun f hf => hsk f ((sorted_mem _ _ _ _).mp hf)) rest
     ((fieldsToks o (sorted o.sortedFields (·.name) fs) ++ .punct '}' :: rest).length + 1) (by
       have := fieldsToks_length o (sorted o.sortedFields (·.name) fs)
       simp; omega)
   obtain ⟨e1, e2, e3, e4, e5, e6, e7, e8, e9, _⟩ := kw_facts
   cases isObj
-  · simp only [Bool.false_eq_true, if_false, List.cons_append, List.append_assoc, List.nil_append, pDef, pDesc_descToks,
-      e5, e6, e7, e8, e9, pTypeDef, Bool.or_true, Bool.true_or, decide_true, decide_false, Bool.false_or, himpl, hd,
-      pFieldsDef, hfl, Option.map_some, dFields]
+  · simp only [Bool.false_eq_true, if_false, List.cons_append, List.append_assoc, List.nil_append,
+      e8, e9, pTypeDef, Bool.or_true, Bool.true_or, decide_true, decide_false, Bool.false_or, himpl, hd,
+      pFieldsDef, hfl, Option.map_some, xFields]
     simp
-  · simp only [if_true, List.cons_append, List.append_assoc, List.nil_append, pDef, pDesc_descToks,
-      e1, e2, e3, e4, pTypeDef, Bool.or_true, Bool.true_or, decide_true, decide_false, Bool.false_or, himpl, hd,
-      pFieldsDef, hfl, Option.map_some, dFields]
+  · simp only [if_true, List.cons_append, List.append_assoc, List.nil_append,
+      e4, pTypeDef, Bool.or_true, Bool.true_or, decide_true, decide_false, Bool.false_or, himpl, hd,
+      pFieldsDef, hfl, Option.map_some, xFields]
     simp
 
-theorem pDef_union (dsc : Option Text) (n : Text) (ds : List DirApp) (hds : ∀ d ∈ ds, dirWf d = true)
+theorem pTypeDef_union (ext : Bool) (dsc : Option Text) (n : Text) (ds : List DirApp) (hds : ∀ d ∈ ds, dirWf d = true)
     (ms : List Text) (hne : ms ≠ []) (rest : List Tok) (hr : DefEnd rest) :
-    pDef (descToks dsc ++ (.name (kw "union") :: .name n :: dirsToks ds ++ .punct '=' :: sepToks '|' ms ++ rest)) =
-      some (.type false n dsc (ds.map dDir) (.union ms), rest) := by
+    pTypeDef ext dsc (.name (kw "union") :: .name n :: dirsToks ds ++ .punct '=' :: sepToks '|' ms ++ rest) =
+      some (.type ext n dsc (ds.map dDir) (.union ms), rest) := by
   have hd := constDirs_toks ds hds (.punct '=' :: (sepToks '|' ms ++ rest)) (dirEnd_punct _ _ (by decide) (by decide))
   have hn := pNamesAfter_toks '|' ms hne rest (by intro r e; cases hr <;> cases e)
   obtain ⟨_, _, _, _, _, _, _, _, _, e1, e2, e3, e4, e5, e6, _⟩ := kw_facts
-  simp only [List.cons_append, List.append_assoc, pDef, pDesc_descToks, e1, e2, e3, e4, e5, e6, pTypeDef, if_false, if_true, hd, hn,
+  simp only [List.cons_append, List.append_assoc, e4, e5, e6, pTypeDef, if_false, if_true, hd, hn,
     Option.map_some, Bool.or_self, Bool.false_eq_true, decide_false]
 
-theorem pDef_enum (o : Opts) (ho : o.federation = false) (dsc : Option Text) (n : Text) (ds : List DirApp) (hds : ∀ d ∈ ds, dirWf d = true)
+theorem pTypeDef_enum (o : Opts) (ext : Bool) (dsc : Option Text) (n : Text) (ds : List DirApp) (hds : ∀ d ∈ ds, dirWf d = true)
     (vs : List (Text × Attrs)) (hne : vs ≠ [])
     (hvs : ∀ v ∈ vs, SkelEnumVal v) (rest : List Tok) :
-    pDef (descToks dsc ++ (.name (kw "enum") :: .name n :: dirsToks ds ++ .punct '{' :: enumToks (sorted o.sortedEnum (·.1) vs) ++ [.punct '}'] ++ rest)) =
-      some (.type false n dsc (ds.map dDir)
+    pTypeDef ext dsc (.name (kw "enum") :: .name n :: dirsToks ds ++ .punct '{' :: enumToks o (sorted o.sortedEnum (·.1) vs) ++ [.punct '}'] ++ rest) =
+      some (.type ext n dsc (ds.map dDir)
         (.enum ((sorted o.sortedEnum (·.1) vs).map (fun v => ⟨v.1, v.2.desc, dDirs o v.2⟩))), rest) := by
-  have hd := constDirs_toks ds hds (.punct '{' :: (enumToks (sorted o.sortedEnum (·.1) vs) ++ .punct '}' :: rest))
+  have hd := constDirs_toks ds hds (.punct '{' :: (enumToks o (sorted o.sortedEnum (·.1) vs) ++ .punct '}' :: rest))
     (dirEnd_punct _ _ (by decide) (by decide))
-  have hv := pEnumValues_toks o ho (sorted o.sortedEnum (·.1) vs) (sorted_ne_nil _ _ _ hne)
+  have hv := pEnumValues_toks o (sorted o.sortedEnum (·.1) vs) (sorted_ne_nil _ _ _ hne)
     (fun v hv => hvs v ((sorted_mem _ _ _ _).mp hv)) rest
-    ((enumToks (sorted o.sortedEnum (·.1) vs) ++ .punct '}' :: rest).length + 1)
-    (by have := enumToks_length (sorted o.sortedEnum (·.1) vs); simp; omega)
+    ((enumToks o (sorted o.sortedEnum (·.1) vs) ++ .punct '}' :: rest).length + 1)
+    (by have := enumToks_length o (sorted o.sortedEnum (·.1) vs); simp; omega)
   obtain ⟨_, _, _, _, _, _, _, _, _, _, _, _, _, _, _, e1, e2, e3, e4, e5, e6, e7, _⟩ := kw_facts
-  simp only [List.cons_append, List.append_assoc, List.nil_append, pDef, pDesc_descToks, e1, e2, e3, e4, e5, e6, e7, pTypeDef,
+  simp only [List.cons_append, List.append_assoc, List.nil_append, e4, e5, e6, e7, pTypeDef,
     if_false, if_true, hd, hv, Option.map_some, Bool.or_self, Bool.false_eq_true, decide_false]
 
-theorem pDef_input (o : Opts) (ho : o.federation = false) (dsc : Option Text) (n : Text) (ds : List DirApp) (hds : ∀ d ∈ ds, dirWf d = true)
+theorem pTypeDef_input (o : Opts) (ext : Bool) (dsc : Option Text) (n : Text) (ds : List DirApp) (hds : ∀ d ∈ ds, dirWf d = true)
     (fs : List InputVal) (hne : fs ≠ [])
     (hfs : ∀ f ∈ fs, SkelIv f) (rest : List Tok) :
-    pDef (descToks dsc ++ (.name (kw "input") :: .name n :: dirsToks ds ++ .punct '{' :: ivsToks (sorted o.sortedFields (·.name) fs) ++ [.punct '}'] ++ rest)) =
-      some (.type false n dsc (ds.map dDir) (.input ((sorted o.sortedFields (·.name) fs).map (dIv o))), rest) := by
-  have hd := constDirs_toks ds hds (.punct '{' :: (ivsToks (sorted o.sortedFields (·.name) fs) ++ .punct '}' :: rest))
+    pTypeDef ext dsc (.name (kw "input") :: .name n :: dirsToks ds ++ .punct '{' :: ivsToks o (sorted o.sortedFields (·.name) fs) ++ [.punct '}'] ++ rest) =
+      some (.type ext n dsc (ds.map dDir) (.input ((sorted o.sortedFields (·.name) fs).map (dIv o))), rest) := by
+  have hd := constDirs_toks ds hds (.punct '{' :: (ivsToks o (sorted o.sortedFields (·.name) fs) ++ .punct '}' :: rest))
     (dirEnd_punct _ _ (by decide) (by decide))
-  have hv := pInputValues_toks o ho '}' (Or.inr rfl) (sorted o.sortedFields (·.name) fs) (sorted_ne_nil _ _ _ hne)
+  have hv := pInputValues_toks o '}' (Or.inr rfl) (sorted o.sortedFields (·.name) fs) (sorted_ne_nil _ _ _ hne)
     (fun v hv => hfs v ((sorted_mem _ _ _ _).mp hv)) rest
-    ((ivsToks (sorted o.sortedFields (·.name) fs) ++ .punct '}' :: rest).length + 1)
-    (by have := ivsToks_length (sorted o.sortedFields (·.name) fs); simp; omega)
+    ((ivsToks o (sorted o.sortedFields (·.name) fs) ++ .punct '}' :: rest).length + 1)
+    (by have := ivsToks_length o (sorted o.sortedFields (·.name) fs); simp; omega)
   obtain ⟨_, _, _, _, _, _, _, _, _, _, _, _, _, _, _, _, _, _, _, _, _, _, e1, e2, e3, e4, e5, e6, e7, e8⟩ := kw_facts
-  simp only [List.cons_append, List.append_assoc, List.nil_append, pDef, pDesc_descToks, e1, e2, e3, e4, e5, e6, e7, e8, pTypeDef,
+  simp only [List.cons_append, List.append_assoc, List.nil_append, e4, e5, e6, e7, e8, pTypeDef,
     if_false, if_true, hd, hv, Option.map_some, Bool.or_self, Bool.false_eq_true, decide_false]
 
-/-- the directive applications `describe` lists for a type are those written -/
 theorem typeApps_wf (o : Opts) (t : TypeDef) (ha : TypeAttrs (tdAttrs t)) : ∀ d ∈ typeApps o t, dirWf d = true := by
   have hspec : ∀ url, ∀ d ∈ specApps o url, dirWf d = true := by
     intro url d hd
@@ -198,34 +234,42 @@ theorem typeApps_wf (o : Opts) (t : TypeDef) (ha : TypeAttrs (tdAttrs t)) : ∀ 
         subst hd
         simp only [dirWf, sfWf, svWf, Bool.and_true]; decide
     · cases hd
+  have hfd : ∀ a : Attrs, TypeAttrs a → ∀ d ∈ fedApps o a ++ a.dirs, dirWf d = true := by
+    intro a ha d hd
+    rcases List.mem_append.mp hd with hd | hd
+    · exact fedApps_wf o a d hd
+    · exact ha.dirs d hd
   cases t with
   | scalar n a url =>
     intro d hd
     rcases List.mem_append.mp hd with hd | hd
     · exact hspec url d hd
-    · exact ha.dirs d hd
+    · exact hfd a ha d hd
   | input n a oneof fs =>
     intro d hd
     rcases List.mem_append.mp hd with hd | hd
     · cases oneof
       · cases hd
       · simp only [if_true, List.mem_singleton] at hd; subst hd; decide
+    · exact hfd a ha d hd
+  | object n a e i f =>
+    intro d hd
+    rcases List.mem_append.mp hd with hd | hd
     · exact ha.dirs d hd
-  | object n a e i f => exact ha.dirs
-  | interface n a e i f => exact ha.dirs
-  | union n a m => exact ha.dirs
-  | «enum» n a v => exact ha.dirs
-
-theorem dDirs_type (o : Opts) (ho : o.federation = false) (a : Attrs) (ha : TypeAttrs a) : dDirs o a = a.dirs.map dDir := by
-  simp [dDirs, dFed, ho, ha.dep, dDeprecated]
+    · exact fedApps_wf o a d hd
+  | interface n a e i f => exact hfd a ha
+  | union n a m => exact hfd a ha
+  | «enum» n a v => exact hfd a ha
 
 theorem defToks_end (o : Opts) (t : TypeDef) (r : List Tok) (hr : DefEnd r) : DefEnd (defToks o t ++ r) := by
   unfold defToks
   split
   · simpa using hr
-  · cases hd : (tdAttrs t).desc with
-    | some d => exact DefEnd.str _ _
-    | none => cases t <;> exact DefEnd.name _ _
+  · split
+    · exact DefEnd.name _ _
+    · cases hd : (tdAttrs t).desc with
+      | some d => exact DefEnd.str _ _
+      | none => cases t <;> exact DefEnd.name _ _
 
 theorem defsToks_end (o : Opts) (L : List TypeDef) (r : List Tok) (hr : DefEnd r) : DefEnd (L.flatMap (defToks o) ++ r) := by
   induction L with
@@ -233,69 +277,75 @@ theorem defsToks_end (o : Opts) (L : List TypeDef) (r : List Tok) (hr : DefEnd r
   | cons t L ih => simp only [List.flatMap_cons, List.append_assoc]; exact defToks_end o t _ ih
 
 /-- one type definition, at token level -/
-theorem pDef_toks (o : Opts) (ho : o.federation = false) (t : TypeDef) (hs : SkelType t) (rest : List Tok)
+theorem pDef_toks (o : Opts) (t : TypeDef) (hs : SkelType t) (rest : List Tok)
     (hr : DefEnd rest) :
-    (dType o t = none ∧ defToks o t = []) ∨
-    (∃ d, dType o t = some d ∧ pDef (defToks o t ++ rest) = some (d, rest)) := by
+    (xType o t = none ∧ defToks o t = []) ∨
+    (∃ d, xType o t = some d ∧ pDef (defToks o t ++ rest) = some (d, rest)) := by
+  obtain ⟨k1, k2, k3, k4, k5, k6, k7, k8, k9, k10, k11, k12, k13, k14, k15, k16, k17, k18, k19, k20, k21, k22, k23, k24, k25, _⟩ := kw_facts
   cases t with
   | scalar n a url =>
-    by_cases hn : systemScalars.contains n = true
+    by_cases hn : isSystemScalar o (.scalar n a url) = true
     · left
-      have hb : builtinScalars.contains n = true := by rw [← systemScalars_builtin]; exact hn
-      exact ⟨by simp only [dType, hb, if_true], by simp only [defToks, isSystemScalar, hn, if_true]⟩
+      exact ⟨by simp only [xType, hn, if_true], by simp only [defToks, hn, if_true]⟩
     · right
-      have hn' : systemScalars.contains n = false := by simpa using hn
-      have hb : builtinScalars.contains n = false := by rw [← systemScalars_builtin]; exact hn'
+      have hn' : isSystemScalar o (.scalar n a url) = false := by simpa using hn
       obtain ⟨_, ha⟩ := hs
-      have hd : dType o (.scalar n a url) = some (.type false n a.desc ((typeApps o (.scalar n a url)).map dDir) .scalar) := by
-        simp only [dType, hb, Bool.false_eq_true, if_false, dDirs_type o ho a ha, typeApps, specApps, List.map_append]
-        cases o.specifiedBy <;> cases url <;> simp [dDir, SValue.toP]
-      refine ⟨_, hd, ?_⟩
-      simp only [defToks, isSystemScalar, hn', Bool.false_eq_true, if_false, tdAttrs, defCore, List.append_assoc,
-        List.cons_append, List.nil_append]
-      exact pDef_scalar a.desc n _ (typeApps_wf o (.scalar n a url) ha) rest hr
+      refine ⟨.type false n a.desc ((typeApps o (.scalar n a url)).map dDir) .scalar, by simp only [xType, hn', Bool.false_eq_true, if_false], ?_⟩
+      have e1 : kw "scalar" ≠ kw "extend" := by decide
+      have e2 : kw "scalar" ≠ kw "schema" := by decide
+      have e3 : kw "scalar" ≠ kw "directive" := by decide
+      simp only [defToks, hn', isExt, Bool.false_eq_true, if_false, tdAttrs, defCore, List.cons_append, List.append_assoc]
+      rw [pDef_plain _ _ _ e1 e2 e3]
+      exact pTypeDef_scalar false a.desc n _ (typeApps_wf o (.scalar n a url) ha) rest hr
   | object n a ext impls fs =>
     right
     obtain ⟨_, ha, _, hne, hfs⟩ := hs
     refine ⟨_, rfl, ?_⟩
-    have := pDef_object o ho a.desc true n impls a.dirs ha.dirs fs hne (fun f hf => (hfs f hf).1) rest
+    have := fun e d => pTypeDef_object o e d true n impls _ (typeApps_wf o (.object n a ext impls fs) ha) fs hne (fun f hf => (hfs f hf).1) rest
     simp only [if_true] at this
-    simp only [defToks, isSystemScalar, Bool.false_eq_true, if_false, tdAttrs, defCore, typeApps, ho, Bool.false_and,
-      dDirs_type o ho a ha, List.append_assoc]
-    simpa [List.append_assoc] using this
+    by_cases he : (o.federation && ext) = true
+    · simp only [defToks, isSystemScalar, isExt, he, Bool.false_eq_true, if_false, if_true, defCore, List.cons_append, List.append_assoc]
+      rw [pDef_extend _ _ k2]
+      simpa [List.append_assoc] using this true none
+    · have he' : (o.federation && ext) = false := by simpa using he
+      simp only [defToks, isSystemScalar, isExt, he', Bool.false_eq_true, if_false, tdAttrs, defCore, List.cons_append, List.append_assoc]
+      rw [pDef_plain _ _ _ k1 k2 k3]
+      simpa [List.append_assoc] using this false a.desc
   | interface n a ext impls fs =>
     right
     obtain ⟨_, ha, _, hne, hfs⟩ := hs
     refine ⟨_, rfl, ?_⟩
-    have := pDef_object o ho a.desc false n impls a.dirs ha.dirs fs hne (fun f hf => (hfs f hf).1) rest
+    have := fun e d => pTypeDef_object o e d false n impls _ (typeApps_wf o (.interface n a ext impls fs) ha) fs hne (fun f hf => (hfs f hf).1) rest
     simp only [Bool.false_eq_true, if_false] at this
-    simp only [defToks, isSystemScalar, Bool.false_eq_true, if_false, tdAttrs, defCore, typeApps, ho, Bool.false_and,
-      dDirs_type o ho a ha, List.append_assoc]
-    simpa [List.append_assoc] using this
+    by_cases he : (o.federation && ext) = true
+    · simp only [defToks, isSystemScalar, isExt, he, Bool.false_eq_true, if_false, if_true, defCore, List.cons_append, List.append_assoc]
+      rw [pDef_extend _ _ k6]
+      simpa [List.append_assoc] using this true none
+    · have he' : (o.federation && ext) = false := by simpa using he
+      simp only [defToks, isSystemScalar, isExt, he', Bool.false_eq_true, if_false, tdAttrs, defCore, List.cons_append, List.append_assoc]
+      rw [pDef_plain _ _ _ k5 k6 k7]
+      simpa [List.append_assoc] using this false a.desc
   | union n a ms =>
     right
     obtain ⟨_, ha, hne, _⟩ := hs
     refine ⟨_, rfl, ?_⟩
-    simp only [defToks, isSystemScalar, Bool.false_eq_true, if_false, tdAttrs, defCore, typeApps, dDirs_type o ho a ha,
-      List.append_assoc]
-    simpa [List.append_assoc] using pDef_union a.desc n a.dirs ha.dirs ms hne rest hr
+    simp only [defToks, isSystemScalar, isExt, Bool.false_eq_true, if_false, tdAttrs, defCore, List.cons_append, List.append_assoc]
+    rw [pDef_plain _ _ _ k10 k11 k12]
+    simpa [List.append_assoc] using pTypeDef_union false a.desc n _ (typeApps_wf o (.union n a ms) ha) ms hne rest hr
   | «enum» n a vs =>
     right
     obtain ⟨_, ha, hne, hvs⟩ := hs
     refine ⟨_, rfl, ?_⟩
-    simp only [defToks, isSystemScalar, Bool.false_eq_true, if_false, tdAttrs, defCore, typeApps, dDirs_type o ho a ha,
-      List.append_assoc]
-    simpa [List.append_assoc] using pDef_enum o ho a.desc n a.dirs ha.dirs vs hne hvs rest
+    simp only [defToks, isSystemScalar, isExt, Bool.false_eq_true, if_false, tdAttrs, defCore, List.cons_append, List.append_assoc]
+    rw [pDef_plain _ _ _ k16 k17 k18]
+    simpa [List.append_assoc] using pTypeDef_enum o false a.desc n _ (typeApps_wf o (.enum n a vs) ha) vs hne hvs rest
   | input n a oneof fs =>
     right
     obtain ⟨_, ha, hne, hfs⟩ := hs
-    have hd : dType o (.input n a oneof fs) = some (.type false n a.desc ((typeApps o (.input n a oneof fs)).map dDir)
-        (.input ((sorted o.sortedFields (·.name) fs).map (dIv o)))) := by
-      simp only [dType, dDirs_type o ho a ha, typeApps, List.map_append]
-      cases oneof <;> simp [dDir]
-    refine ⟨_, hd, ?_⟩
-    simp only [defToks, isSystemScalar, Bool.false_eq_true, if_false, tdAttrs, defCore, List.append_assoc]
-    simpa [List.append_assoc] using pDef_input o ho a.desc n _ (typeApps_wf o (.input n a oneof fs) ha) fs hne hfs rest
+    refine ⟨_, rfl, ?_⟩
+    simp only [defToks, isSystemScalar, isExt, Bool.false_eq_true, if_false, tdAttrs, defCore, List.cons_append, List.append_assoc]
+    rw [pDef_plain _ _ _ k23 k24 k25]
+    simpa [List.append_assoc] using pTypeDef_input o false a.desc n _ (typeApps_wf o (.input n a oneof fs) ha) fs hne hfs rest
 
 theorem pDefs_nil (g : Nat) : pDefs g [] = none := by
   cases g with
@@ -303,21 +353,21 @@ theorem pDefs_nil (g : Nat) : pDefs g [] = none := by
   | succ g => rfl
 
 /-- a list of skeleton type definitions at the end of a document (fuel: the definitions count) -/
-theorem pDefs_toks (o : Opts) (ho : o.federation = false) (L : List TypeDef) (hL : ∀ t ∈ L, SkelType t) :
-    ∀ g, (L.filterMap (dType o)).length ≤ g →
-      (L.filterMap (dType o) = [] ∧ L.flatMap (defToks o) = []) ∨
-      (L.filterMap (dType o) ≠ [] ∧ pDefs g (L.flatMap (defToks o)) = some (L.filterMap (dType o))) := by
+theorem pDefs_toks (o : Opts) (L : List TypeDef) (hL : ∀ t ∈ L, SkelType t) :
+    ∀ g, (L.filterMap (xType o)).length ≤ g →
+      (L.filterMap (xType o) = [] ∧ L.flatMap (defToks o) = []) ∨
+      (L.filterMap (xType o) ≠ [] ∧ pDefs g (L.flatMap (defToks o)) = some (L.filterMap (xType o))) := by
   induction L with
   | nil => intro g _; left; exact ⟨rfl, rfl⟩
   | cons t L ih =>
     intro g hg
     have ihL := ih (fun t ht => hL t (List.mem_cons_of_mem _ ht))
     have hend : DefEnd (L.flatMap (defToks o)) := by simpa using defsToks_end o L [] DefEnd.nil
-    rcases pDef_toks o ho t (hL t List.mem_cons_self) (L.flatMap (defToks o)) hend with ⟨h1, h2⟩ | ⟨d, h1, h2⟩
+    rcases pDef_toks o t (hL t List.mem_cons_self) (L.flatMap (defToks o)) hend with ⟨h1, h2⟩ | ⟨d, h1, h2⟩
     · have := ihL g (by simpa [List.filterMap_cons, h1] using hg)
       simpa [List.filterMap_cons, h1, List.flatMap_cons, h2] using this
     · right
-      have hg' : (L.filterMap (dType o)).length + 1 ≤ g := by simpa [List.filterMap_cons, h1] using hg
+      have hg' : (L.filterMap (xType o)).length + 1 ≤ g := by simpa [List.filterMap_cons, h1] using hg
       cases g with
       | zero => omega
       | succ g =>
@@ -331,17 +381,17 @@ theorem pDefs_toks (o : Opts) (ho : o.federation = false) (L : List TypeDef) (hL
           | cons x xs => rw [hr] at e2; simp [e2]
 
 /-- … followed by further definitions -/
-theorem pDefs_toks_then (o : Opts) (ho : o.federation = false) (L : List TypeDef) (hL : ∀ t ∈ L, SkelType t)
+theorem pDefs_toks_then (o : Opts) (L : List TypeDef) (hL : ∀ t ∈ L, SkelType t)
     (R : List Tok) (hR : DefEnd R) (hne : R ≠ []) :
-    ∀ g, pDefs (g + (L.filterMap (dType o)).length) (L.flatMap (defToks o) ++ R) =
-      (pDefs g R).map (L.filterMap (dType o) ++ ·) := by
+    ∀ g, pDefs (g + (L.filterMap (xType o)).length) (L.flatMap (defToks o) ++ R) =
+      (pDefs g R).map (L.filterMap (xType o) ++ ·) := by
   induction L with
   | nil => intro g; simp
   | cons t L ih =>
     intro g
     have ihL := ih (fun t ht => hL t (List.mem_cons_of_mem _ ht)) g
     have hend : DefEnd (L.flatMap (defToks o) ++ R) := defsToks_end o L R hR
-    rcases pDef_toks o ho t (hL t List.mem_cons_self) (L.flatMap (defToks o) ++ R) hend with ⟨h1, h2⟩ | ⟨d, h1, h2⟩
+    rcases pDef_toks o t (hL t List.mem_cons_self) (L.flatMap (defToks o) ++ R) hend with ⟨h1, h2⟩ | ⟨d, h1, h2⟩
     · simpa [List.filterMap_cons, h1, List.flatMap_cons, h2] using ihL
     · simp only [List.filterMap_cons, h1, List.flatMap_cons, List.length_cons, List.append_assoc]
       rw [← Nat.add_assoc, pDefs, h2]
@@ -354,13 +404,13 @@ theorem pDefs_toks_then (o : Opts) (ho : o.federation = false) (L : List TypeDef
         simp only [ihL, Option.map_map]
         cases pDefs g R <;> simp
 
-theorem defs_le_toks (o : Opts) (ho : o.federation = false) (L : List TypeDef) (hL : ∀ t ∈ L, SkelType t) :
-    (L.filterMap (dType o)).length ≤ (L.flatMap (defToks o)).length := by
+theorem defs_le_toks (o : Opts) (L : List TypeDef) (hL : ∀ t ∈ L, SkelType t) :
+    (L.filterMap (xType o)).length ≤ (L.flatMap (defToks o)).length := by
   induction L with
   | nil => simp
   | cons t L ih =>
     have ih' := ih (fun t ht => hL t (List.mem_cons_of_mem _ ht))
-    rcases pDef_toks o ho t (hL t List.mem_cons_self) [] DefEnd.nil with ⟨h1, h2⟩ | ⟨d, h1, h2⟩
+    rcases pDef_toks o t (hL t List.mem_cons_self) [] DefEnd.nil with ⟨h1, h2⟩ | ⟨d, h1, h2⟩
     · simpa [List.filterMap_cons, h1, List.flatMap_cons, h2] using ih'
     · have hne : defToks o t ≠ [] := by
         intro e
